@@ -17,8 +17,12 @@ type vSnap struct {
 // vRecord runs f (a writer) on fsys and records a snapshot after every
 // mutation, torn writes included.
 func vRecord(fsys *vfs.FS, f func()) []vSnap {
+	return vRecordTorn(fsys, f, true)
+}
+
+func vRecordTorn(fsys *vfs.FS, f func(), torn bool) []vSnap {
 	snaps := []vSnap{{fs: fsys.Clone()}}
-	fsys.Torn = true
+	fsys.Torn = torn
 	fsys.OnMutate = func(g *vfs.FS, op, path string) {
 		if strings.HasPrefix(op, "chtimes") {
 			return // modification times are not observed by lookups
@@ -150,3 +154,110 @@ func VerifC11OneWriterOneReader() {
 		}
 	}
 }
+
+// VerifC11TwoWriters: writer A's Put is interrupted before a solver-chosen
+// file operation by writer B, which performs a solver-chosen number of the
+// file operations of its own Put of the same id (then stands still: B may
+// be slow or dead); A then finishes. Every mutation is a snapshot; a reader
+// then looks the id up with solver-chosen observation points. This covers
+// the interleavings A[0..i] B[0..j] A[i..] with a reader anywhere.
+func VerifC11TwoWriters() {
+	fsys := vfs.New()
+	fsys.NowSec = 1700000000
+	c := vNewCache(fsys)
+	L := rt.Param("L", 1)
+	id := vIDs[0]
+	dA := vData(L)
+	var dB []byte
+	identical := rt.Bool()
+	if identical {
+		dB = append([]byte{}, dA...)
+		rt.Reach("identical-content")
+	} else {
+		dB = vData(L)
+		rt.Reach("different-content")
+	}
+	// number of operations of an undisturbed Put (A and B have the same shape)
+	nA := vCountOps(fsys, dA)
+	i := rt.IntRange(0, nA-1) // B runs before A's i-th operation
+	j := rt.IntRange(1, nA)   // B performs j operations, then stands still
+	inB := false
+	started := false
+	opsA := 0
+	var putErrA error
+	// torn writes only matter to a reader that overlaps the writers
+	snaps := vRecordTorn(fsys, func() {
+		fsys.BeforeOp = func(g *vfs.FS, op, path string) {
+			if inB || started {
+				return
+			}
+			if opsA == i {
+				started = true
+				inB = true
+				g.CrashAt = g.Ops + j
+				cb := &Cache{dir: vDir, now: vfs.Now}
+				cb.PutBytes(id, dB) // result irrelevant: B is cut off after j operations
+				g.CrashAt = -1
+				g.Failed = false
+				inB = false
+				rt.Reach("writer-b-ran")
+			}
+			opsA++
+		}
+		putErrA = c.PutBytes(id, dA)
+		fsys.BeforeOp = nil
+	}, rt.Param("OBS", 1) != 0)
+	fsys.CrashAt = -1
+	if putErrA != nil {
+		// A may legitimately fail when B's different content gets in its way
+		rt.Assert(!identical, "identical-concurrent-put-does-not-fail")
+		rt.Reach("writer-a-failed")
+	}
+	useFile := rt.Bool()
+	var got []byte
+	ok := false
+	if rt.Param("OBS", 1) == 0 {
+		// the reader only runs once A has returned (B still standing still)
+		snaps = snaps[len(snaps)-1:]
+	}
+	after := vObserve(snaps, func(view *vfs.FS) {
+		rc := &Cache{dir: vDir, now: vfs.Now}
+		if useFile {
+			file, entry, err := rc.GetFile(id)
+			if err != nil {
+				rt.Assert(vIsNotFound(err), "getfile-error-is-not-found")
+				return
+			}
+			ok = true
+			n := view.File(file)
+			rt.Assert(n != nil, "getfile-names-existing-file")
+			if n != nil {
+				got = n.Data
+				rt.Assert(int64(len(n.Data)) == entry.Size, "getfile-size-under-concurrency")
+				rt.Assert(rt.Hash(n.Data) == [32]byte(entry.OutputID), "getfile-content-complete-under-concurrency")
+			}
+			rt.Reach("getfile-hit")
+		} else {
+			got, ok = vCheckGetBytes(rc, id)
+		}
+	})
+	if len(snaps) == 1 {
+		after = true
+	}
+	vfs.Cur = fsys
+	if ok {
+		rt.Reach("lookup-hit")
+		rt.Assert(vOneOf(got, dA, true, dB), "lookup-returns-some-puts-bytes")
+	} else {
+		rt.Reach("lookup-miss")
+		if after && putErrA == nil && identical {
+			// A's Put of this id has completed and B only re-stores the same
+			// content: the id must be readable
+			rt.Fail("restoring-identical-content-made-stored-id-unreadable")
+		}
+	}
+}
+
+// VerifC11TwoWritersObserved: the two-writer scenario with a reader that
+// overlaps the writers (registered for the thorough tier).
+func VerifC11TwoWritersObserved() { VerifC11TwoWriters() }
